@@ -2,6 +2,8 @@
 
 // C09 — CRL fetcher: whatever the servers return; the freshest-CRL value parser on a fully symbolic DER buffer
 //verif:pkg revocation/crl
+// for the bounded inputs of these harnesses no loop of the code under test runs anywhere near 300 iterations: more is a hang
+//verif:terminates github.com/notaryproject/notation-core-go/ 300
 //verif:include ../C18/fetch.go
 //verif:include ../C18/download.go
 //verif:include ../C18/parsedp.go
